@@ -45,6 +45,15 @@ type Lowerer struct {
 	globals  map[string]bool         // names with a definition (program or prelude)
 	Unknown  map[string]bool         // identifiers nobody defines (reported; stuck only if reached)
 	Problems []string
+	Prefix   string // namespace of the program file being added ("" for the prelude): several packages share one batch
+}
+
+// q resolves a program-level name to its namespaced form if the current package defines it.
+func (l *Lowerer) q(name string) string {
+	if l.Prefix != "" && l.globals[l.Prefix+name] {
+		return l.Prefix + name
+	}
+	return name
 }
 
 var Builtins = map[string]bool{"Fst": true, "Snd": true, "InjL": true, "InjR": true, "Case": true, "to_u64": true, "to_u32": true, "to_u8": true,
@@ -147,7 +156,7 @@ func (l *Lowerer) staticTy(n *vparse.Node, depth int) (any, bool) {
 			}
 			return VTy(t, nil, nil), true
 		}
-		if d, ok := l.tydefs[n.Name]; ok {
+		if d, ok := l.tydefs[l.q(n.Name)]; ok {
 			return l.staticTy(d, depth+1)
 		}
 		return nil, false
@@ -188,7 +197,7 @@ func (l *Lowerer) staticTy(n *vparse.Node, depth int) (any, bool) {
 }
 
 func (l *Lowerer) structTy(name string, depth int) (any, bool) {
-	si, ok := l.structs[name]
+	si, ok := l.structs[l.q(name)]
 	if !ok {
 		return nil, false
 	}
@@ -220,7 +229,7 @@ func tySize(t any) int {
 }
 
 func (l *Lowerer) fieldIndex(s, f string) (int, structInfo, bool) {
-	si, ok := l.structs[s]
+	si, ok := l.structs[l.q(s)]
 	if !ok {
 		return 0, si, false
 	}
@@ -384,11 +393,12 @@ func (l *Lowerer) ident(name string) int {
 	if Builtins[name] {
 		return l.bi(name)
 	}
-	if _, ok := l.tydefs[name]; ok {
+	if _, ok := l.tydefs[l.q(name)]; ok {
 		if t, ok := l.staticTy(&vparse.Node{Kind: "id", Name: name}, 0); ok {
 			return l.val(t)
 		}
 	}
+	name = l.q(name)
 	if !l.globals[name] {
 		l.Unknown[name] = true
 	}
@@ -519,7 +529,7 @@ func binderOf(n *vparse.Node) string {
 
 // struct.mk S [f ::= e; ...] = (e1, (e2, (..., #()))) in descriptor order, zero_val for absent fields
 func (l *Lowerer) structMk(s string, lst *vparse.Node) int {
-	si, ok := l.structs[s]
+	si, ok := l.structs[l.q(s)]
 	if !ok {
 		return l.problem("struct.mk of unknown struct %s", s)
 	}
@@ -568,13 +578,13 @@ func (l *Lowerer) AddFile(f *vparse.File) {
 					si.types = append(si.types, k.Kids[0])
 				}
 			}
-			l.structs[d.Name] = si
-			l.globals[d.Name] = true
+			l.structs[l.Prefix+d.Name] = si
+			l.globals[l.Prefix+d.Name] = true
 		case "tydef", "notation":
-			l.tydefs[d.Name] = d.Body
-			l.globals[d.Name] = true
+			l.tydefs[l.Prefix+d.Name] = d.Body
+			l.globals[l.Prefix+d.Name] = true
 		case "def":
-			l.globals[d.Name] = true
+			l.globals[l.Prefix+d.Name] = true
 		}
 	}
 	// pass 2: bodies
@@ -590,7 +600,7 @@ func (l *Lowerer) AddFile(f *vparse.File) {
 		} else {
 			id = l.expr(body)
 		}
-		l.P.Defs[d.Name] = id
+		l.P.Defs[l.Prefix+d.Name] = id
 	}
 }
 
